@@ -24,6 +24,9 @@ P = lambda i: ("param", i)
 V = lambda n: ("var", n)
 
 
+ALSO_PORTABLE = True
+
+
 def run(ctx, chk):
     prog = ctx.prog()
     cg = prog.callgraph()
